@@ -393,7 +393,21 @@ fn positions_for(db: &FixtureDatabase, root: &Path, file: &str, text: &str, extr
     }
     v.insert((nlines, 0));
     v.insert((nlines + 3, 2));
-    v.into_iter().collect()
+    let all: Vec<(u32, u32)> = v.into_iter().collect();
+    // a "very large" document (tens of thousands of definitions) has hundreds of thousands of span boundaries, and most
+    // requests are linear in the size of the index: ask at an evenly spaced sample of them (first and last included),
+    // or one run takes hours
+    const MAX_POSITIONS: usize = 800;
+    if all.len() > MAX_POSITIONS {
+        let step = all.len() as f64 / MAX_POSITIONS as f64;
+        let mut out: Vec<(u32, u32)> = (0..MAX_POSITIONS).map(|k| all[((k as f64) * step) as usize]).collect();
+        out.push(*all.last().unwrap());
+        out.extend(extra.iter().copied());
+        out.sort();
+        out.dedup();
+        return out;
+    }
+    all
 }
 
 fn guarded(res: &mut CRes, ctx: &str, what: &str, f: &mut dyn FnMut()) {
@@ -473,7 +487,9 @@ fn drive_lib(root: &Path, inp: &ChaosInput) -> CRes {
                 }
             });
             guarded(&mut res, &ctx, "param_insertion_info", &mut || {
-                for l in 0..text.lines().count() + 2 {
+                let nl = text.lines().count() + 2;
+                let stride = (nl / 3000).max(1);
+                for l in (0..nl).step_by(stride).chain([nl.saturating_sub(2), nl.saturating_sub(1)]) {
                     let _ = db.get_function_param_insertion_info(&abs, l);
                     let _ = db.find_containing_function(&abs, l);
                 }
@@ -500,8 +516,11 @@ fn drive_lib(root: &Path, inp: &ChaosInput) -> CRes {
         });
         guarded(&mut res, &ctx, "get_unused_fixtures / references", &mut || {
             let _ = db.get_unused_fixtures();
-            for d in all_defs(&db) {
-                let _ = db.find_references_for_definition(&d);
+            // (of a sample of the definitions when there are tens of thousands: see positions_for)
+            let defs = all_defs(&db);
+            let stride = (defs.len() / 400).max(1);
+            for d in defs.iter().step_by(stride) {
+                let _ = db.find_references_for_definition(d);
             }
         });
     }
